@@ -3324,6 +3324,8 @@ def socp(c, Gl = None, hl = None, Gq = None, hq = None, A = None, b = None,
         values.
     """
 
+    options = kwargs.get('options',globals()['options'])
+
     from cvxopt import base, blas
     from cvxopt.base import matrix, spmatrix
 
